@@ -85,7 +85,8 @@ def spec_hash():
 
 def tlc_run(name, root, consts, inv=(), prop=(), view=None, constraint=None, action_constraint=None,
             workers=8, timeout=900, rows_out=None, simulate=None, extra_defs="", postcondition=None,
-            env_extra=None, java_opts="-Xmx6g -Xss512m", init="Init", nxt="Next", extra_args=()):
+            env_extra=None, java_opts="-Xmx6g -Xss512m", init="Init", nxt="Next", extra_args=(),
+            max_rows=12_000_000):
     """Generate config `name`, run TLC, return dict(ok, states, distinct, depth, out, rows_file, wall)."""
     d = os.path.join(WORK, "cfg_" + name)
     shutil.rmtree(d, ignore_errors=True)
@@ -120,6 +121,9 @@ def tlc_run(name, root, consts, inv=(), prop=(), view=None, constraint=None, act
                 if line.startswith('"'):
                     rf.write(line)
                     nrows += 1
+                    if nrows > max_rows:
+                        p.kill()
+                        raise ToolError(f"configuration {name} emits more than {max_rows} rows (mis-sized)")
                 else:
                     lf.write(line)
         finally:
@@ -222,10 +226,27 @@ def pair_owners(mm):
     return o
 
 
+def strip_hosts(v):
+    """remove every host token: objects {"n","h"} lose h; canonical trees [n,h,v,l,r] lose position 1"""
+    if isinstance(v, dict):
+        return {k: strip_hosts(x) for k, x in v.items() if not (k == "h" and "n" in v)}
+    if isinstance(v, list):
+        if len(v) == 5 and isinstance(v[1], str) and isinstance(v[0], list) and isinstance(v[3], list) and isinstance(v[4], list):
+            return [v[0], v[2], strip_hosts(v[3]), strip_hosts(v[4])]
+        if len(v) == 3 and isinstance(v[1], str) and isinstance(v[0], list) and not isinstance(v[2], (list, dict)):
+            return [v[0], v[2]]
+        return [strip_hosts(x) for x in v]
+    return v
+
+
 def owners(mm):
     """Set of properties that own mismatch record `mm` (kind, event)."""
     kind = mm["kind"]
     act = mm["e"].get("a", "?")
+    # a disagreement that vanishes when host bits are ignored is about the stored representation
+    if kind in ("ret", "entries", "tree", "pre") and mm.get("expected") != mm.get("got") \
+            and strip_hosts(mm.get("expected")) == strip_hosts(mm.get("got")):
+        return {"C18"}
     if act in PAIR_OWNER:
         return pair_owners(mm)
     if kind == "pre":
